@@ -415,7 +415,7 @@ def shapes(tier):
         jobs.append(('int_algo', dict(op='arith', w=w)))
     for w in (4, 6, 8):
         jobs.append(('int_algo', dict(op='divmod', w=w)))
-    for w in (4, 5) if not th else (4, 5, 6):
+    for w in (4, 5):        # w = 6: z3 answers unknown on the symbolic-modulus power chain (measured): outside
         jobs.append(('int_algo', dict(op='pow', w=w)))
     for p in (3, 5, 7, 11, 13, 17, 29, 41, 73, 97, 113) if th else (3, 7, 13, 17, 41, 97):
         jobs.append(('int_algo', dict(op='modsqrt', p=p, w=8)))
